@@ -28,7 +28,8 @@ ASSUMPTIONS = [
 ]
 seam = RandomSeam()
 FAMILIES = [("dir", "oct"), ("A128KW", "oct16"), ("A256GCMKW", "oct32"), ("RSA-OAEP", "rsa"), ("ECDH-ES", "P-256"), ("ECDH-ES+A128KW", "X25519"),
-            ("PBES2-HS256+A128KW", "oct20"), ("ECDH-1PU", "P-384"), ("ECDH-1PU+A256KW", "X448"), ("RSA1_5", "rsa")]
+            ("PBES2-HS256+A128KW", "oct20"), ("ECDH-1PU", "P-384"), ("ECDH-1PU+A256KW", "X448"), ("RSA1_5", "rsa"),
+            ("PBES2-HS384+A192KW", "oct64"), ("PBES2-HS512+A256KW", "oct128")]       # pass-phrases and long shared secrets
 ENCS = ["A128CBC-HS256", "A256GCM", "XC20P"]
 FORMS = ["compact", "flattened", "general"]
 MODES = ["counter", "zero", "ones"]
@@ -55,6 +56,10 @@ class EncModel:
         for enc in ENCS:
             for form in ("flattened", "general"):
                 menu.append(("relay:A128KW" if ENC[enc][0] != "xc20p" else "relay:A256KW", "oct16" if ENC[enc][0] != "xc20p" else "oct32", enc, form, "counter"))
+        # a wrapper that always hands over the application's own key pair as sender_key, also for plain ECDH-ES
+        for alg, kind in (("ECDH-ES", "P-384"), ("ECDH-ES+A128KW", "X448")):
+            for form in FORMS:
+                menu.append(("sender-key-passed:" + alg, kind, "A256GCM", form, "counter"))
         # JSON objects whose recipient is added without a header argument at all (the algorithm is named in the protected header)
         for alg, kind in (("PBES2-HS256+A128KW", "oct20"), ("A256GCMKW", "oct32"), ("ECDH-ES+A128KW", "X25519"), ("A128KW", "oct16")):
             for form in ("flattened", "general"):
@@ -79,7 +84,10 @@ class EncModel:
         alg, kind, enc, form, mode = op
         kk = kind if kind != "oct" else "oct%d" % ENC[enc][1]
         key, jwk = st["keys"][kk]
-        sender = st["senders"].get(kk) if "1PU" in alg else None
+        passed_sender = alg.startswith("sender-key-passed:")
+        if passed_sender:
+            alg = alg.split(":", 1)[1]
+        sender = st["senders"].get(kk) if ("1PU" in alg or passed_sender) else None
         st["n"] += 1
         seam.install()
         seam.mode = mode
@@ -175,7 +183,7 @@ class EncModel:
             out["viol"].append(("an insecure generator is used while producing a JWE", repr(sorted(set(insecure)))))
         if alg.startswith("ECDH"):
             epk = merged.get("epk")
-            statics = [rjwk.public_of(jwk)] + ([rjwk.public_of(scen.key(kk, 5))] if "1PU" in alg else [])
+            statics = [rjwk.public_of(jwk)] + ([rjwk.public_of(scen.key(kk, 5))] if ("1PU" in alg or passed_sender) else [])
             if not isinstance(epk, dict) or epk.get("crv") != jwk["crv"]:
                 out["viol"].append(("epk is not on the recipient's curve", repr(epk)))
             else:
